@@ -24,6 +24,20 @@ def strsOut (l : List String) : String := if l.isEmpty then "-" else ",".interca
 def boolArg (s : String) : Option Bool :=
   if s = "1" then some true else if s = "0" then some false else none
 
+def exitStatus (parsed pre apply expand post gen : String) : Option String := do
+  let parsed ← boolArg parsed
+  let pre ← boolArg pre
+  let apply ← boolArg apply
+  let expand ← boolArg expand
+  let post ← boolArg post
+  let gen ← boolArg gen
+  let st : Stages Unit := {
+    validatePre := fun _ => pre, applyAttributes := fun ds => if apply then some ds else none,
+    expandInlines := fun ds => if expand then some ds else none,
+    validatePost := fun _ => post, generate := fun _ => gen }
+  let r : Except Err (List Unit) := if parsed then .ok [] else .error (.missing "")
+  pure s!"{mainExit st r} {if reachesOutput st r then 1 else 0}"
+
 def handle : Handler
   | "parse", [root, fs] => do
     let fs ← fsArg fs
@@ -32,17 +46,9 @@ def handle : Handler
     | .error (.missing p) => pure s!"err missing {p}"
     | .error (.unparsable p) => pure s!"err unparsable {p}"
     | .error .outOfFuel => pure "err out-of-fuel"
-  | "exit", [parsed, pre, expand, post, gen] => do
-    let parsed ← boolArg parsed
-    let pre ← boolArg pre
-    let expand ← boolArg expand
-    let post ← boolArg post
-    let gen ← boolArg gen
-    let st : Stages Unit := {
-      validatePre := fun _ => pre, expand := fun ds => if expand then some ds else none,
-      validatePost := fun _ => post, generate := fun _ => gen }
-    let r : Except Err (List Unit) := if parsed then .ok [] else .error (.missing "")
-    pure s!"{mainExit st r} {if reachesOutput st r then 1 else 0}"
+  | "exit", [parsed, pre, expand, post, gen] => exitStatus parsed pre "1" expand post gen
+  -- the same with the two halves of the post-processing apart: apply_attributes, then the expansion of inlines
+  | "exit", [parsed, pre, apply, expand, post, gen] => exitStatus parsed pre apply expand post gen
   | _, _ => none
 
 end Driver.C17
